@@ -80,9 +80,14 @@ def generate(seed, prop, bias):
     L = rng.choice(bias.get('L', [0, 1, 1, 2, 2, 3]))
     table = [rng.choice(bias.get('waits', WAITS)) for _ in range(L)]
     nmsg = rng.randint(1, bias.get('max_msgs', 3))
+    rk = rng.choice(bias.get('relays', ['script']))
     msgs = []
     outcomes = {}
     t = 0.0
+    # a queue policy applies to every message enqueued through that queue
+    split_all = rng.random() < bias.get('p_split', 0.0) and \
+        rk not in ('smtp', 'lmtp')      # (the scripted server tells messages
+                                        # apart by their sender)
     for k in range(nmsg):
         nr = rng.randint(bias.get('min_rcpts', 1), bias.get('max_rcpts', 4))
         sender = '' if rng.random() < bias.get('p_null_sender', 0.15) \
@@ -105,6 +110,17 @@ def generate(seed, prop, bias):
                 m['due_in'] = rng.choice([-5.0, 0.0, 0.0, 2.0, 40.0])
         msgs.append(m)
         outcomes[str(k)] = gen_outcomes(rng, rcpts, L, bias)
+        if nr >= 2 and 'how' not in m and split_all:
+            # a RecipientSplit policy turns this enqueue into one stored
+            # message per recipient; each is judged as a message of its own
+            m['split'] = True
+            for j, r in enumerate(rcpts):
+                kk = 100 * (k + 1) + j
+                msgs.append({'k': kk, 'sender': sender, 'rcpts': [r],
+                             'at': t, 'how': 'sub', 'body': m.get('body')})
+                if msgs[-1]['body'] is None:
+                    msgs[-1].pop('body')
+                outcomes[str(kk)] = gen_outcomes(rng, [r], L, bias)
     scn = {
         'property': prop, 'harness': 'queue', 'seed': seed,
         'sched_seed': rng.getrandbits(48),
@@ -118,7 +134,6 @@ def generate(seed, prop, bias):
         'ops': [],
         'chunk_size': rng.choice([64, 256, 1024, 16384]),
     }
-    rk = rng.choice(bias.get('relays', ['script']))
     if rk != 'script':
         scn['relay'] = rk
         if rk in ('smtp', 'lmtp'):
@@ -230,6 +245,8 @@ def analyse(scn, obs):
     msgs = {m['k']: m for m in scn['messages']}
     out = {}
     for k, m in msgs.items():
+        if m.get('split'):
+            continue            # judged through its single-recipient parts
         atts = [a for a in obs['attempts'] if a['k'] == k]
         acc = obs['accepted'].get(k)
         delivered, perm, last_temp = set(), set(), set()
@@ -342,9 +359,15 @@ def shrink_candidates(scn, clause):
     msgs = scn['messages']
     if len(msgs) > 1:
         for i in range(len(msgs)):
+            if msgs[i].get('how') == 'sub':
+                continue
+            kk = msgs[i]['k']
             c = dict(scn)
-            c['messages'] = msgs[:i] + msgs[i + 1:]
-            yield finish(c)
+            c['messages'] = [x for x in msgs if x is not msgs[i] and not (
+                msgs[i].get('split') and x.get('how') == 'sub' and
+                x['k'] // 100 == kk + 1)]
+            if any(x.get('how') != 'sub' for x in c['messages']):
+                yield finish(c)
     # drop ops
     ops = scn.get('ops') or []
     for i in range(len(ops)):
@@ -371,6 +394,8 @@ def shrink_candidates(scn, clause):
         yield c
     # fewer recipients
     for i, m in enumerate(msgs):
+        if m.get('split') or m.get('how') == 'sub':
+            continue
         if len(m['rcpts']) > 1:
             for j in range(len(m['rcpts'])):
                 c = dict(scn)
